@@ -83,21 +83,23 @@ type simClient struct {
 	name string
 
 	// observations (written by the client's tasks, read by the oracle)
-	plans       []answerPlan // fate applied to each received request
-	received    []*conformancev1.ClientCompatRequest
-	receivedAt  []int // scheduler step
-	written     []writtenAnswer
-	faultFired  map[string]int
-	faulted     bool // a stream fault has been injected
-	started     bool
-	exited      bool
-	exitedAt    time.Duration
-	exitErr     error
-	killed      bool
-	outBytes    int
-	answersDone int
-	lastOutput  time.Duration
-	serial      int
+	plans          []answerPlan    // fate applied to each received request
+	goneAtAnswer   map[string]bool // the addressed server had ended when the answer was produced
+	aliveAtReceipt map[string]bool // the addressed server was up (not aborted, not exited) when the request arrived
+	received       []*conformancev1.ClientCompatRequest
+	receivedAt     []int // scheduler step
+	written        []writtenAnswer
+	faultFired     map[string]int
+	faulted        bool // a stream fault has been injected
+	started        bool
+	exited         bool
+	exitedAt       time.Duration
+	exitErr        error
+	killed         bool
+	outBytes       int
+	answersDone    int
+	lastOutput     time.Duration
+	serial         int
 
 	// answerFn, if set, builds the answer for a name (scenario specific)
 	answerFn func(name string, serial int) *conformancev1.ClientCompatResponse
@@ -118,7 +120,7 @@ type simClient struct {
 }
 
 func newSimClient(sim *simrt.Sim, sc clientScript) *simClient {
-	return &simClient{sc: sc, sim: sim, faultFired: map[string]int{}, wmu: simrt.NewChanMutex(),
+	return &simClient{sc: sc, sim: sim, faultFired: map[string]int{}, wmu: simrt.NewChanMutex(), goneAtAnswer: map[string]bool{}, aliveAtReceipt: map[string]bool{},
 		deadCh: make(chan struct{}), idle: make(chan struct{}, 1), serial: sc.SerialBase}
 }
 
